@@ -13,6 +13,9 @@ def main():
     if a.pid in CORE:
         import core
         mod = core
+    elif a.pid == "C11":
+        import c11
+        mod = c11
     elif a.pid in ("C01", "C02", "C12"):
         import c01
         mod = c01
